@@ -584,7 +584,51 @@ func rulePayeeKey(c *Ctx) {
 			}
 		}
 	}
-	c.census("I-PAYEEKEY", "values that merge a transaction's payee and description", n, 2)
+	// the same choice written as two returns of a helper (`if tx.Payee != "" { return tx.Payee }; return
+	// tx.Description`): the merge is the function's result, the deciding branch the nearest one above both returns
+	for _, f := range c.P.ModuleFuncs() {
+		var bp, bd *ssa.BasicBlock
+		for _, b := range f.Blocks {
+			ret, ok := lastInstr(b).(*ssa.Return)
+			if !ok || len(ret.Results) != 1 {
+				continue
+			}
+			if isTxField(ret.Results[0], "Payee") {
+				bp = b
+			}
+			if isTxField(ret.Results[0], "Description") {
+				bd = b
+			}
+		}
+		if bp == nil || bd == nil || bp == bd {
+			continue
+		}
+		n++
+		above := map[*ssa.BasicBlock]bool{}
+		for d := bp.Idom(); d != nil; d = d.Idom() {
+			above[d] = true
+		}
+		onPayee, onDesc := false, false
+		for d := bd.Idom(); d != nil; d = d.Idom() {
+			ifi, ok := lastInstr(d).(*ssa.If)
+			if !ok || !above[d] {
+				continue
+			}
+			for w := range backSlice(ifi.Cond) {
+				if isTxField(w, "Payee") {
+					onPayee = true
+				}
+				if isTxField(w, "Description") {
+					onDesc = true
+				}
+			}
+			break
+		}
+		c.check(onPayee && !onDesc, "I-PAYEEKEY", funcName(f), "payee-or-description is decided by the payee", f.Pos(),
+			"the name a transaction is filed under is its payee unless the payee is empty",
+			"a helper returns a transaction's Payee on one path and its Description on another, and the choice is not made by a test of the Payee alone: for `payee | note` transactions the transaction is filed under another name than the collectors of labels, counts and templates use")
+	}
+	c.census("I-PAYEEKEY", "values that merge a transaction's payee and description", n, 1)
 }
 
 // ruleDiskReaders (D-READ): every reader of journal files hands the parser the same text for the same bytes.  The
@@ -745,5 +789,105 @@ func ruleAnalyzerStateless(c *Ctx) {
 	}
 	if n == 0 {
 		c.ok("A-STATELESS", "analyzer.Analyzer", "the analyzer carries no state", obj.Pos(), fmt.Sprintf("%d fields, none of them a map, slice, pointer, channel or interface", st.NumFields()))
+	}
+}
+
+// ruleGlobSiblings (G-SIBGLOB): wildcard include patterns are expanded in more than one place - by the include
+// loader (the from-scratch path) and by the workspace when it records the include edges of one file (the incremental
+// path).  Which of the files matched by the pattern count as included must not depend on who expanded it: a filter
+// applied to the matches by one expander only (hidden files skipped by the loader but not by the workspace index)
+// makes the incremental include graph name files a rebuild would not load.  For every call of a glob function the
+// rule collects the library predicates that - applied to a match - decide whether the match is kept (the control
+// dependences of the append that keeps it, followed into module helpers); the expanders must agree on that set.
+func ruleGlobSiblings(c *Ctx) {
+	type site struct {
+		f     *ssa.Function
+		pos   token.Pos
+		preds map[string]bool
+	}
+	var sites []site
+	for _, f := range c.P.ModuleFuncs() {
+		for _, b := range f.Blocks {
+			for _, ins := range b.Instrs {
+				call, ok := ins.(*ssa.Call)
+				if !ok {
+					continue
+				}
+				cal := call.Call.StaticCallee()
+				if cal == nil || cal.Pkg == nil || inModule(cal) || !strings.Contains(cal.Name(), "Glob") || len(call.Call.Args) == 0 {
+					continue
+				}
+				if sl, ok := call.Type().(*types.Tuple); !ok || sl.Len() == 0 || types.TypeString(sl.At(0).Type(), nil) != "[]string" {
+					continue
+				}
+				st := site{f: f, pos: call.Pos(), preds: map[string]bool{}}
+				dependsOnGlob := func(v ssa.Value) bool { return backSlice(v)[call] }
+				kept := 0
+				for _, b2 := range f.Blocks {
+					for _, ins2 := range b2.Instrs {
+						ap, ok := ins2.(*ssa.Call)
+						if !ok {
+							continue
+						}
+						if bi, ok := ap.Call.Value.(*ssa.Builtin); !ok || bi.Name() != "append" || len(ap.Call.Args) < 2 || !dependsOnGlob(ap.Call.Args[1]) {
+							continue
+						}
+						kept++
+						for _, cc := range controlDeps(b2) {
+							sl := backSlice(cc.Cond)
+							if !sl[call] {
+								continue
+							}
+							for w := range sl {
+								pc, ok := w.(*ssa.Call)
+								if !ok || pc == call {
+									continue
+								}
+								pcal := pc.Call.StaticCallee()
+								if pcal == nil || inModule(pcal) || pcal.Pkg == nil {
+									continue
+								}
+								if pc.Parent() == f && !dependsOnGlob(pc) {
+									continue
+								}
+								st.preds[pcal.Pkg.Pkg.Path()+"."+pcal.Name()] = true
+							}
+						}
+					}
+				}
+				if kept > 0 {
+					sites = append(sites, st)
+				}
+			}
+		}
+	}
+	c.census("G-SIBGLOB", "expansions of a wildcard include pattern whose matches are collected", len(sites), 1)
+	if len(sites) < 2 {
+		return
+	}
+	common := map[string]bool{}
+	for p := range sites[0].preds {
+		common[p] = true
+	}
+	for _, s := range sites[1:] {
+		for p := range common {
+			if !s.preds[p] {
+				delete(common, p)
+			}
+		}
+	}
+	for _, s := range sites {
+		var extra, all []string
+		for p := range s.preds {
+			all = append(all, p)
+			if !common[p] {
+				extra = append(extra, p)
+			}
+		}
+		sort.Strings(extra)
+		sort.Strings(all)
+		c.check(len(extra) == 0, "G-SIBGLOB", funcName(s.f), "glob matches are filtered like in the sibling expanders", s.pos,
+			fmt.Sprintf("the matches kept depend on %v, as in the other %d expander(s)", all, len(sites)-1),
+			fmt.Sprintf("this expansion of a wildcard include keeps or drops matches by %v, which the other expander(s) of include patterns do not apply: the include loader (rebuild) and the workspace's include graph (incremental) disagree on which files a pattern includes, so files are indexed after edits that a fresh load would not contain (or the reverse)", extra))
 	}
 }
